@@ -116,9 +116,9 @@ func init() {
 func init() {
 	addProp(&PropSpec{
 		ID:          "C08",
-		Rules:       []string{"R-STATE-VERBOSE", "R-GATE", "R-HARD", "R-PAIR-C-HARD", "R-LAUNDER", "R-ERRSITES", "R-ERRCLASS"},
+		Rules:       []string{"R-STATE-VERBOSE", "R-GATE", "R-HARD", "R-PAIR-C-HARD", "R-LAUNDER", "R-FAILSTOP", "R-ERRSITES", "R-ERRCLASS"},
 		Explanation: "WithSilent as a shape of the code: the suppression flag is cleared only between a save and a deferred restore (suppression inside predicates never leaks); a non-suppressible error is never lost at a call site; a suppressed failure never leaves a helper looking like a value.",
-		Decided: []string{"R-STATE-VERBOSE: verbose is restored on every exit of the only function that clears it; set elsewhere only by constructor and option",
+		Decided: []string{"R-FAILSTOP: after every status-returning evaluation, the paths on which (failed, nil) is not refuted return failed without re-entering a loop (a suppressed failure stops the traversal exactly where the reported one does)", "R-STATE-VERBOSE: verbose is restored on every exit of the only function that clears it; set elsewhere only by constructor and option",
 			"R-PAIR-C-HARD: no call site loses an error, including losses limited to non-cancellation errors",
 			"R-LAUNDER: (failed, nil) is not turned into a success by a helper"},
 		NotDecided:  []string{"equality of the silent and verbose results", "hard class of the datetime-template and precision/scale errors (covered by R-HARD only where an anchor exists)"},
